@@ -481,6 +481,9 @@ type Contract struct {
 	DynPure  bool // dynamic calls without static callee in this body are assumed to modify nothing
 	FrameTag string
 	Updates  []GhostUpdate // ghost assignments executed at every return (model fields only)
+	Exports  []Clause      // Validate only: facts over `raw` (the RawTx), `sigs` (the signatures) and `ctx`, proved as `result0 ==> fact` and
+	                       // assumed in the same type's ProcessCheck/ProcessDeliver/ProcessFee under the validated token
+	Assumes  []Clause      // environment assumptions: assumed at entry of the body, NOT checked at call sites, listed in the trusted base
 	Claims   []Clause      // postconditions checked on the body but never assumed by callers (used for clauses that are known findings)
 	Grants   []Clause      // interface methods: history tokens assumed at call sites, not checked on implementations
 	Forbids  []Clause      // interface methods: functions no implementation may reach (Src = name patterns)
@@ -585,7 +588,7 @@ func ParseContractFile(path, pkg string) (*ContractFile, error) {
 		body := strings.TrimPrefix(t, "//@")
 		lines = append(lines, ln{body, i + 1})
 	}
-	keywords := []string{"dyncalls", "claims", "grants", "forbids", "footprint", "iterator", "count", "update", "func", "assume", "interface", "method", "requires", "ensures", "modifies", "invariant", "safety", "ghost", "model", "repr", "axiom", "implements", "lemma", "yields", "property", "noinline", "const", "expands", "inline"}
+	keywords := []string{"assumes", "exports", "dyncalls", "claims", "grants", "forbids", "footprint", "iterator", "count", "update", "func", "assume", "interface", "method", "requires", "ensures", "modifies", "invariant", "safety", "ghost", "model", "repr", "axiom", "implements", "lemma", "yields", "property", "noinline", "const", "expands", "inline"}
 	isKw := func(s string) bool {
 		f := strings.Fields(s)
 		if len(f) == 0 {
@@ -635,9 +638,15 @@ func ParseContractFile(path, pkg string) (*ContractFile, error) {
 				trusted = true
 				rest = strings.TrimSpace(strings.TrimPrefix(rest, "func"))
 			}
+			externMark := false
+			if trusted && strings.HasPrefix(rest, "extern ") {
+				// assume extern func strconv.ParseUint — dependency with a single-segment package path
+				externMark = true
+				rest = strings.TrimSpace(strings.TrimPrefix(strings.TrimSpace(strings.TrimPrefix(rest, "extern ")), "func"))
+			}
 			name, _ := splitTag(rest)
 			cur = &Contract{Pkg: pkg, Target: name, Trusted: trusted, Invs: map[string][]Clause{}, File: path, Line: l.n}
-			if strings.Contains(name, "/") {
+			if strings.Contains(name, "/") || externMark {
 				// function of a dependency, given by its full name, e.g.
 				// github.com/ethereum/go-ethereum/core.(*GasPool).SubGas — always assumed
 				cur.Extern = true
@@ -657,7 +666,7 @@ func ParseContractFile(path, pkg string) (*ContractFile, error) {
 			name, _ := splitTag(rest)
 			cur = &Contract{Pkg: pkg, Target: curIface.Name + "." + name, Invs: map[string][]Clause{}, File: path, Line: l.n}
 			curIface.Methods[name] = cur
-		case "requires", "ensures", "lemma", "yields", "claims":
+		case "requires", "ensures", "lemma", "yields", "claims", "exports", "assumes":
 			if cur == nil {
 				return nil, fail(l, fmt.Errorf("%s outside func", kw))
 			}
@@ -674,6 +683,10 @@ func ParseContractFile(path, pkg string) (*ContractFile, error) {
 				cur.Ensures = append(cur.Ensures, c)
 			case "claims":
 				cur.Claims = append(cur.Claims, c)
+			case "exports":
+				cur.Exports = append(cur.Exports, c)
+			case "assumes":
+				cur.Assumes = append(cur.Assumes, c)
 			case "lemma":
 				cur.Lemmas = append(cur.Lemmas, c)
 			case "yields":
